@@ -9,9 +9,10 @@ git -C "$W" diff > "$OUT/patch.diff"
 cp "$W/demo_$ID.py" "$OUT/demo_$ID.py" 2>/dev/null
 PP="$W:/tmp/sa_env/shims:/tmp/sa_env/deps"
 ( cd "$W" && PYTHONPATH="$PP" /venv/bin/python demo_$ID.py >/tmp/demo_with.txt 2>&1 ); WITH=$?
-git -C "$W" stash -q
+# (no git stash here: the stash is shared between all worktrees of one repository)
+git -C "$W" checkout -q -- cirbo
 ( cd "$W" && PYTHONPATH="$PP" /venv/bin/python demo_$ID.py >/tmp/demo_without.txt 2>&1 ); WITHOUT=$?
-git -C "$W" stash pop -q
+git -C "$W" apply "$OUT/patch.diff"
 SUITE=$(cd "$W" && /venv/bin/python -m pytest -q -p no:cacheprovider --timeout=900 --continue-on-collection-errors 2>&1 | tail -1)
 echo "seed $ID: demo with change exit=$WITH, without exit=$WITHOUT; suite: $SUITE"
 echo "files: $(git -C "$W" diff --stat | tail -1)"
